@@ -31,6 +31,8 @@ func runExtras(r *Runner, p *Property, tier string) ([]*LedgerEntry, []string) {
 			out = append(out, dvLemmaObligations(r)...)
 		case "fp-equiv":
 			out = append(out, r.equivObligations()...)
+		case "fp-noalloc-scan":
+			out = append(out, allocFreeScan(r.eng, "fp.(*decimal).floatBits")...)
 		case "fp-equiv-loops":
 			out = append(out, r.loopEquivObligations()...)
 		case "fp-tables":
